@@ -185,7 +185,12 @@ def observe_q(m, ps, E, q):
                               particle_charges=torch.tensor(q, dtype=DT), survival_probabilities=torch.ones(n, dtype=DT), dtype=DT)
     mu_in, cov_in = moments_impl(pb)
     qb = cheetah.ParameterBeam(mu_in, cov_in, pb.energy, total_charge=pb.total_charge, dtype=DT)
-    op, oq = el.track(pb), el.track(qb)
+    # the property must hold whichever beam type is tracked first through this element instance (a track that leaves something
+    # behind in the element would show up in the second one): alternate the order deterministically
+    if (len(ps) + int(E)) % 2 == 0:
+        op, oq = el.track(pb), el.track(qb)
+    else:
+        oq, op = el.track(qb), el.track(pb)
     mu_p, cov_p = moments_impl(op)
     return {"mu_in": mu_in.tolist(), "cov_in": cov_in.tolist(), "mu_part": mu_p.tolist(), "cov_part": cov_p.tolist(),
             "mu_param": oq._mu.tolist(), "cov_param": oq._cov.tolist(), "E": [float(op.energy), float(oq.energy)],
